@@ -19,6 +19,8 @@ func init() {
 	hx.Register("gen_hostmap", genHostmap)
 	hx.Register("hostmap", func(c *hx.Ctx) { runHostmap(c, false) })
 	hx.Register("hostmap_idx", func(c *hx.Ctx) { runHostmap(c, true) })
+	hx.Register("hostmap_rx", func(c *hx.Ctx) { runHostmapRx(c, "HostMap_corr.check_case29") })
+	hx.Register("hostmap_rx28", func(c *hx.Ctx) { runHostmapRx(c, "HostMap_corr.check_case28") })
 }
 
 
@@ -151,10 +153,22 @@ type hmHist struct {
 	unsafeAt int
 	idxSpace int // candidates for "fresh" indexes are drawn from 1..idxSpace
 	peers    [][]uint64
+	rx       bool  // real PKI; pending operations go through handleOutbound / continueHandshake / HandleIncoming
+	rxPeers  []int // rx peer number of peers[i]
 }
 
 func hmNewHist(c *hx.Ctx, idxSpace int) *hmHist {
-	return &hmHist{c: c, v: nebula.VerifNewHM(), nextID: 1, infos: map[uint64]nebula.VerifHMInfo{}, feat: map[string]bool{},
+	return hmNewHistOn(c, nebula.VerifNewHM(), idxSpace)
+}
+
+func hmNewHistRx(c *hx.Ctx, idxSpace int) *hmHist {
+	h := hmNewHistOn(c, nebula.VerifNewHMReal(), idxSpace)
+	h.rx = true
+	return h
+}
+
+func hmNewHistOn(c *hx.Ctx, v *nebula.VerifHM, idxSpace int) *hmHist {
+	return &hmHist{c: c, v: v, nextID: 1, infos: map[uint64]nebula.VerifHMInfo{}, feat: map[string]bool{},
 		unsafeAt: -1, idxSpace: idxSpace}
 }
 
